@@ -522,7 +522,7 @@ func rulesC15(c *Ctx) {
 		}
 		flow := map[string][]string{
 			pA: {"Authorize", "handleRegistration", "getAuthorizationCode", "exchangeAuthorizationCode", "GetAuthServerMetadata", "getProtectedResourceMetadata", "protectedResourceMetadataFromChallenges", "validateIssuerResponse"},
-			pO: {"GetProtectedResourceMetadata", "GetAuthServerMeta", "getJSON", "RegisterClient", "validateAuthServerMetaURLs", "validateClientRegistrationURLs", "getPRM"},
+			pO: {"GetProtectedResourceMetadata", "GetAuthServerMeta", "getJSON", "RegisterClient", "validateAuthServerMetaURLs", "validateClientRegistrationURLs", "getPRM", "checkURLScheme", "checkHTTPSOrLoopback"},
 		}
 		errT := types.Universe.Lookup("error").Type()
 		n, nf := 0, 0
